@@ -24,6 +24,7 @@ RULES = [
     Rule('C10.R4', 'the octave search has a bounded trip count', 2),
     Rule('C10.R5', 'block / F-number packing and register order', 6),
     Rule('C10.R6', 'the glide update visits every channel that has a gliding note', 1),
+    Rule('C10.R8', 'the instrument converters copy every field into a destination at least as wide (note offset, drum key, operator bytes reach the synth unchanged)', 20),
     Rule('C10.R7', 're-pitching a key-down note does not depend on the sostenuto mark', 1),
 ]
 EXPLANATION = ('AST def-use slices and constant agreement: the backward slice of the tone argument of OPN2::noteOn inside the Upd_Pitch branch of noteUpdate, '
@@ -250,6 +251,39 @@ def analyse(facts, tier):
                         why='%.5f vs 8.1757989156 * 2^21 / (%d / 144) = %.5f' % (c, clock, want) if ok else 'coefficient %s for %s, clock %d requires %.5f' % (c, fname, clock, want)))
         okr = rate == clock // 144
         obls.append(Obl('C10.R3', 'OPNFamilyTraits<%s>' % fname, 'nativeRate = floor(clock / 144)', on.loc, 'discharged' if okr else 'finding', why='%d == %d // 144' % (rate, clock)))
+    # the chips are clocked for the family whose coefficient noteOn will use: OPN2::reset creates the chips of the *new* family and
+    # stores m_chipFamily only afterwards, so the clock handed to setRate must come from the chip object itself (or the family
+    # parameter), never from the family member, which still names the previous family at that point
+    rs = facts.fn('OPN2::reset')
+    fam_store = [(b, j) for b, j, st in rs.cfg.stmts() for y in walk(st['s']) for ap in [assign_parts(y)] if ap and short(strip(ap[0]).get('n', '')) == 'm_chipFamily']
+    nrate = 0
+    for b, j, st in rs.cfg.stmts():
+        for x in calls_in(st['s']):
+            if short(callee_name(x)) == 'setRate' and len(x.get('a', [])) >= 2 and x.get('obj') is not None:
+                nrate += 1
+                clk = x['a'][1]
+                objs = show(strip(x['obj']))
+                stale = []
+                def leaves(e, depth=0):
+                    for y in walk(e):
+                        if y.get('k') == 'MemberExpr' and short(y.get('n', '')) == 'm_chipFamily':
+                            stale.append('m_chipFamily')
+                        if 'callee' in y and short(callee_name(y)) in ('chipFamily',) :
+                            stale.append('chipFamily()')
+                        if depth < 3 and y.get('k') == 'DeclRefExpr' and not y.get('parm') and not y.get('enumc'):
+                            for b2, j2, st2 in rs.cfg.stmts():
+                                if st2['s'].get('k') == 'DeclStmt':
+                                    for v in st2['s']['decls']:
+                                        if v['id'] == y.get('id') and v.get('init') is not None:
+                                            leaves(v['init'], depth + 1)
+                leaves(clk)
+                before_store = not any((sb == b and sj < j) or (sb != b and rs.cfg.block_dominates(sb, b)) for sb, sj in fam_store)
+                ok = not (stale and before_store)
+                obls.append(Obl('C10.R3', rs.name, 'clock handed to the new chips: %s' % show(clk)[:40], st['loc'], 'discharged' if ok else 'finding',
+                                why='taken from the chip being configured / the requested family' if ok else
+                                'the clock is derived from %s, read before `m_chipFamily = family` is stored: after a change of the chip family the chips run on the previous family\'s clock while noteOn uses the new family\'s coefficient (every pitch about 138 cents off until the next reset)' % stale[0]))
+    if nrate < 1 or not fam_store:
+        raise build.AnalysisBroken('C10.R3: setRate call / family store of OPN2::reset not found')
     # ---- R4
     for o in c02.r4(facts):
         o.rule = 'C10.R4'
@@ -293,6 +327,7 @@ def analyse(facts, tier):
     obls.append(Obl('C10.R5', on.name, 'channel within chip = c % 6', on.loc, 'discharged' if ch4 else 'finding', why='ch4 = c % 6' if ch4 else 'channel index within the chip is not c % 6'))
     obls += r6_glide(facts)
     obls += r7_sostenuto(facts)
+    obls += r8_no_narrowing(facts)
     return obls
 
 
@@ -370,4 +405,41 @@ def r7_sostenuto(facts):
                            'the guard excludes at most pedal-held users'))
     if n < 1:
         raise build.AnalysisBroken('C10.R7: the pitch write of noteUpdate was not found')
+    return out
+
+
+def r8_no_narrowing(facts):
+    """p = key + instrument note offset: the offset (16-bit in OPN2_Instrument and WOPNInstrument) reaches OPN2::noteOn through
+    cvt_generic_to_FMIns -> OpnTimbre::noteOffset.  Every field-to-field copy of the converters must keep the value: destination
+    integer type at least as wide as the source and of the same signedness (or wider when the source is unsigned)."""
+    out = []
+    n = 0
+    seen = set()
+    for name in ('cvt_generic_to_FMIns', 'cvt_FMIns_to_generic'):
+        for fn in facts.fns.get(name, []):
+            if fn.tree is None:
+                continue
+            for b, j, st in fn.cfg.stmts():
+                for x in walk(st['s']):
+                    ap = assign_parts(x)
+                    if not ap or ap[2] != '=':
+                        continue
+                    l, r = strip(ap[0]), strip(ap[1])
+                    if r is None or r.get('k') not in ('MemberExpr', 'ArraySubscriptExpr') or l.get('k') not in ('MemberExpr', 'ArraySubscriptExpr'):
+                        continue
+                    lt, rt = l.get('t') or {}, r.get('t') or {}
+                    if 'w' not in lt or 'w' not in rt:
+                        continue
+                    key = (name, show(x))
+                    if key in seen:
+                        continue
+                    seen.add(key)
+                    n += 1
+                    lu, ru = bool(lt.get('u')), bool(rt.get('u'))
+                    ok = (lu == ru and lt['w'] >= rt['w']) or (ru and not lu and lt['w'] > rt['w'])
+                    out.append(Obl('C10.R8', fn.name, show(x)[:70], st['loc'], 'discharged' if ok else 'finding',
+                                   why='%s <- %s' % (lt.get('s'), rt.get('s')) if ok else
+                                   'the copy narrows %s to %s: values outside the destination range wrap (a note offset of -129 becomes +127 and the note is programmed octaves away)' % (rt.get('s'), lt.get('s'))))
+    if n < 20:
+        raise build.AnalysisBroken('C10.R8: only %d field copies found in the instrument converters' % n)
     return out
